@@ -2041,6 +2041,7 @@ def clean_dictionary(ddct):
         ("fattrs", dict, "a dictionary"),
         ("fstatements", dict, "a dictionary"),
         ("splicer", dict, "a dictionary"),
+        ("splicer_code", dict, "a dictionary"),
         ("patterns", dict, "a dictionary"),
         ("doxygen", dict, "a dictionary"),
         ("declarations", list, "a list"),
@@ -2051,6 +2052,9 @@ def clean_dictionary(ddct):
         if key in ddct and ddct[key] is not None and not isinstance(
                 ddct[key], typ):
             raise RuntimeError("{} must be {}".format(key, name))
+    for key in ["decl", "language"]:
+        if key in ddct and ddct[key] is None:
+            raise RuntimeError("{} must be a string".format(key))
     if "attrs" in ddct and ddct["attrs"]:
         for key, value in ddct["attrs"].items():
             if key != "__line__" and not isinstance(value, dict):
@@ -2094,6 +2098,8 @@ def clean_dictionary(ddct):
                 raise RuntimeError(
                     "instantation must be defined for each dictionary in cxx_template"
                 )
+            if not isinstance(dct["instantiation"], str):
+                raise RuntimeError("instantiation must be a string")
             newlst.append(
                 TemplateArgument(
                     dct["instantiation"],
@@ -2129,6 +2135,11 @@ def clean_dictionary(ddct):
             if "decl" not in dct:
                 raise RuntimeError(
                     "decl must be defined for each dictionary in fortran_generic at line {}"
+                    .format(linenumber)
+                )
+            if not isinstance(dct["decl"], str):
+                raise RuntimeError(
+                    "decl must be a string in fortran_generic at line {}"
                     .format(linenumber)
                 )
             newlst.append(
